@@ -7,17 +7,21 @@
 (* the only freedom is the SCHEDULE.  By specification the digest of the   *)
 (* whole observable state of instance i after its k-th segment is a        *)
 (* function of (i, k) alone -- in particular the same as when the instance *)
-(* runs alone.  TLC enumerates every schedule; a recorded execution is     *)
+(* runs alone.  An instance may also be REPEATED on the same objects: after *)
+(* its K-th segment, segment K+1 re-initialises them with the same initial *)
+(* state and options, and the digests repeat -- the digest after segment k *)
+(* is a function of (i, ((k-1) mod K) + 1).                                *)
+(* TLC enumerates every schedule; a recorded execution is                  *)
 (* accepted iff every segment's digest equals the reference table          *)
 (* recorded from solo runs.                                                *)
 (***************************************************************************)
 EXTENDS Integers, Sequences, TLC, Json, IOUtils
-CONSTANTS NInst, NSeg
+CONSTANTS NInst, NSeg, Reps
 VARIABLES done, sched
 Init == done = [i \in 1..NInst |-> 0] /\ sched = <<>>
-Run(i) == done[i] < NSeg /\ done' = [done EXCEPT ![i] = @ + 1] /\ sched' = Append(sched, i)
+Run(i) == done[i] < NSeg * Reps /\ done' = [done EXCEPT ![i] = @ + 1] /\ sched' = Append(sched, i)
 Next == \E i \in 1..NInst : Run(i)
 Spec == Init /\ [][Next]_<<done, sched>>
-Emit == (\A i \in 1..NInst : done[i] = NSeg) => PrintT("SCHED " \o ToJson(sched))
+Emit == (\A i \in 1..NInst : done[i] = NSeg * Reps) => PrintT("SCHED " \o ToJson(sched))
 
 =============================================================================
